@@ -2,6 +2,7 @@ SPECIFICATION Spec
 CONSTANTS
   Shapes <- ShapesFull
   MaxDepth = 2
+  Focus = "all"
   MaxSize = 16
   AsFound = FALSE
   EmitCases = TRUE
